@@ -117,5 +117,14 @@ GenLine(o) == ToJson([kind |-> kind, prof |-> prof, op |-> o.op, t0 |-> o.t0, ts
                       resit |-> [i \in 1..Len(o.res) |-> o.res[i].it]])
 Export == (Done /\ script = <<>> /\ GenFile # "") => CSVWrite("%1$s", <<GenLine(Lst)>>, GenFile)
 
-(* keep history variables out of the fingerprint where they do not influence behaviour *)
+(* export of multi-call scripts: the calls and the specification's outcome of each *)
+HistLine == ToJson([kind |-> kind, prof |-> prof, t0 |-> f0.t,
+                    calls |-> [k \in 1..Len(hist) |->
+                       [op |-> hist[k].op, cont |-> hist[k].cont, tsave |-> hist[k].tsave, tot |-> hist[k].tot,
+                        maxit |-> hist[k].maxit, freqs |-> SortSet(hist[k].freqs),
+                        nit |-> hist[k].nit, totnit |-> hist[k].totnit, tfin |-> hist[k].tfin,
+                        rest |-> [i \in 1..Len(hist[k].res) |-> hist[k].res[i].t],
+                        resit |-> [i \in 1..Len(hist[k].res) |-> hist[k].res[i].it],
+                        monit |-> [i \in 1..Len(hist[k].mon) |-> hist[k].mon[i].it]]]])
+ExportHist == (Done /\ script = <<>> /\ GenFile # "") => CSVWrite("%1$s", <<HistLine>>, GenFile)
 =============================================================================
